@@ -96,6 +96,7 @@ fn dispatch(op: &str, fields: &[&str]) -> String
 		"delta" => delta_ops::delta(fields),
 		"dparse" => delta_ops::dparse(fields),
 		"dtokens" => delta_ops::dtokens(fields),
+		"dbig" => delta_ops::dbig(fields),
 		"fuzz" => delta_ops::fuzz(fields),
 		"ping" => "pong".to_string(),
 		_ => "bad-op".to_string(),
